@@ -31,7 +31,7 @@ var lockPkgs = []string{coord, hhp, metap, "tsdb", tsm1, "tsdb/index/inmem", "ts
 func runC19(c *core.Ctx) {
 	c.Clause("D1", func() {
 		handoff := map[string]string{
-			"tsdb.(*SeriesFile).Retain/f.refs#R":                "returns the release function of the read lock it takes (refs.RUnlock); callers defer it",
+			"tsdb.(*SeriesFile).Retain/f.refs#R":            "returns the release function of the read lock it takes (refs.RUnlock); callers defer it",
 			tsm1 + ".(*TSMReader).BatchDelete/r.deleteMu#W": "hands deleteMu to the returned batch; batchDelete.Commit and Rollback release it",
 		}
 		nOps, nFuncs := 0, 0
@@ -372,6 +372,25 @@ func runC19(c *core.Ctx) {
 	})
 
 	c.Clause("D11", func() { runSharedBatchNotMutated(c) })
+
+	c.Clause("D12", func() {
+		runNoWaitUnderLock(c, lockPkgs, 3)
+		if c.Tier == "thorough" {
+			// every other package of the repository
+			in := map[string]bool{}
+			for _, r := range lockPkgs {
+				in[r] = true
+			}
+			var rest []string
+			for rel := range c.P.ByPath {
+				if !in[rel] {
+					rest = append(rest, rel)
+				}
+			}
+			sort.Strings(rest)
+			runNoWaitUnderLock(c, rest, 0)
+		}
+	})
 
 	runC19rest(c)
 }
